@@ -664,12 +664,12 @@ func init() {
 	ext("time.runtimeNano", func(fr *frame, a []value) value { return int64(fr.i.sch.now - virtualEpoch + 1) })
 	ext("time.runtimeNow", externals["time.now"])
 	ext("time.Sleep", func(fr *frame, a []value) value {
-		d := fr.i.concInt(a[0])
+		d := fr.i.durArg(a[0])
 		fr.i.sleep(d)
 		return nil
 	})
 	ext("time.NewTimer", func(fr *frame, a []value) value {
-		return fr.i.newTimer(fr, fr.i.concInt(a[0]), 0, nil, "Timer")
+		return fr.i.newTimer(fr, fr.i.durArg(a[0]), 0, nil, "Timer")
 	})
 	ext("time.NewTicker", func(fr *frame, a []value) value {
 		d := fr.i.concInt(a[0])
@@ -679,7 +679,7 @@ func init() {
 		return fr.i.newTimer(fr, d, d, nil, "Ticker")
 	})
 	ext("time.After", func(fr *frame, a []value) value {
-		p := fr.i.newTimer(fr, fr.i.concInt(a[0]), 0, nil, "Timer").(*value)
+		p := fr.i.newTimer(fr, fr.i.durArg(a[0]), 0, nil, "Timer").(*value)
 		return (*p).(structure)[0]
 	})
 	ext("time.Tick", func(fr *frame, a []value) value {
@@ -728,6 +728,12 @@ func init() {
 	}
 	ext("(*time.Timer).Reset", reset)
 	ext("(*time.Ticker).Reset", reset)
+
+	ext("(time.Time).Format", func(fr *frame, a []value) value { return "<time>" })
+	ext("(time.Time).String", func(fr *frame, a []value) value { return "<time>" })
+	ext("(time.Time).GoString", func(fr *frame, a []value) value { return "<time>" })
+	ext("(time.Time).AppendFormat", func(fr *frame, a []value) value { return a[1] })
+	ext("(time.Duration).String", func(fr *frame, a []value) value { return "<duration>" })
 
 	// ---- sort ---------------------------------------------------------------------------------------
 	sortSlice := func(fr *frame, a []value) value {
@@ -1051,6 +1057,29 @@ func (in *interpreter) wrapError(msg value, inner iface) value {
 	}
 	var v value = structure{msg, inner}
 	return iface{t: types.NewPointer(t.Type()), v: &v}
+}
+
+// durArg returns the duration to use for a one-shot wait. A symbolic duration
+// is not concretised: the wait is modelled as elapsing at once (the virtual
+// clock does not move) and the duration is added to the path's ghost "slept"
+// total, which harnesses read with zzSleptNs.
+func (in *interpreter) durArg(v value) int64 {
+	if s, ok := v.(*sym); ok {
+		in.side.slept = tBV("bvadd", in.side.sleptTerm(), s.e)
+		return 0
+	}
+	d := asInt64(v)
+	if d > 0 {
+		in.side.slept = tBV("bvadd", in.side.sleptTerm(), tConst(64, uint64(d)))
+	}
+	return d
+}
+
+func (st *sideTables) sleptTerm() *term {
+	if st.slept == nil {
+		st.slept = tConst(64, 0)
+	}
+	return st.slept
 }
 
 // ---- time helpers -------------------------------------------------------------------------------------------------------
